@@ -168,6 +168,7 @@ def check(run):
     _r6(run, mi)
     _r7(run, mi)
     _r8(run, mi)
+    _r9(run, mi)
 
 
 # ---------------------------------------------------------------------------------------------
@@ -551,6 +552,61 @@ def _r6(run, mi):
         n += local_memos(run, 'C09-R6', mi, name, fn)
     run.subject('C09-R6')
     run.ok('C09-R6', 'module-level mutable state', '%d module-level containers, %d cache stores' % (len(globals_), n), sample=True)
+
+
+def _r9(run, mi):
+    """R9: the array drivers solve the balance point by point -- the result stored for grid point i is computed from the profiles at the
+    same point i.  Decided on the loop that calls a '*_point' solver: the canonical form indexes every profile and the result with the one
+    np.ndindex variable; a flat enumeration is accepted only when the iteration order is the C order the final reshape assumes."""
+    run.describe('C09-R9', 'array drivers: the result stored for a grid point is computed from every profile at that same point')
+    for name, fn in sorted(dict.items(mi.functions)):
+        for loop in [n for n in ast.walk(fn) if isinstance(n, ast.For)]:
+            calls = [c for st in loop.body for c in ast.walk(st) if isinstance(c, ast.Call) and (dotted(c.func) or '').endswith('_point')
+                     and (dotted(c.func) or '').startswith('_')]
+            if not calls or any(isinstance(x, ast.For) and any(c in list(ast.walk(x)) for c in calls) for st in loop.body for x in ast.walk(st)):
+                continue
+            run.subject('C09-R9')
+            K = '%s|%s|points' % (MOD, name)
+            it = loop.iter
+            itf = dotted(it.func) if isinstance(it, ast.Call) else None
+            if itf in ('np.ndindex', 'numpy.ndindex') and isinstance(loop.target, ast.Name):
+                iv = loop.target.id
+                same = ('%s' % iv, '(Ellipsis, *%s)' % iv, '(..., *%s)' % iv, 'Ellipsis, *%s' % iv)
+                bad = []
+                for c in calls:
+                    for a in list(c.args) + [k.value for k in c.keywords]:
+                        for sub in [x for x in ast.walk(a) if isinstance(x, ast.Subscript)]:
+                            if any(isinstance(y, ast.Name) and y.id == iv for y in ast.walk(sub.slice)) and norm(sub.slice) not in same:
+                                bad.append(norm(sub))
+                stores_ = [st for st in loop.body if isinstance(st, ast.Assign) and any(c in list(ast.walk(st.value)) for c in calls)]
+                for st in stores_:
+                    t = st.targets[0]
+                    if isinstance(t, ast.Subscript) and norm(t.slice) not in same:
+                        bad.append(norm(t))
+                # profiles read through another loop variable than this loop's
+                if bad:
+                    run.fail('C09-R9', K, FILE, loop.lineno, '%s mixes grid points: %s is not indexed with the loop index %s alone' % (name, bad[0], iv))
+                else:
+                    run.ok('C09-R9', name, 'np.ndindex loop: profiles and result indexed with the same index', sample=False)
+                continue
+            txt = norm(it)
+            inner = it.args[0] if isinstance(it, ast.Call) and itf == 'enumerate' and it.args else it
+            innerf = dotted(inner.func) if isinstance(inner, ast.Call) else None
+            if innerf in ('np.nditer', 'numpy.nditer'):
+                order = next((k.value for k in inner.keywords if k.arg == 'order'), None)
+                if not (isinstance(order, ast.Constant) and order.value == 'C'):
+                    if itf != 'enumerate':
+                        run.undecided('C09-R9', name, 'np.nditer loop without a running counter')
+                        continue
+                    run.fail('C09-R9', K, FILE, loop.lineno,
+                             "%s walks the profiles with np.nditer in its default order ('K': the memory order of the arrays) and stores the results "
+                             "by a running counter that is later reshaped in C order: for profiles that are not C-contiguous (a transposed or "
+                             "Fortran-ordered grid) the result of one grid point is stored at another" % name)
+                    continue
+                run.ok('C09-R9', name, "np.nditer(order='C') enumerated", sample=False)
+                continue
+            run.undecided('C09-R9', name, 'loop over %s not recognised' % txt[:50])
+    run.floor('C09-R9', 3)
 
 
 def _r8(run, mi):
